@@ -193,6 +193,8 @@ func (p *Packet) ReadValue(sample int) int {
 		return int(d[sample])
 	case []int64:
 		return int(d[sample])
+	case []byte: // payloads with more than one component per value are kept as raw bytes
+		return int(d[sample])
 	default:
 		panic("Oh no! Type of d is not known in Packet.ReadValue()")
 	}
